@@ -310,7 +310,26 @@ def instance_item(item):
         t = next(i for i, (x, y) in enumerate(zip(got_b, solo_b)) if x[0] != y[0])
         d = first_diff(solo_b[t][1], got_b[t][1])
         leaf = "/".join(_leafsig(d).split("/")[:8])
-        viols.append(violation("instance_unaffected_by_other_instance", "pair=%s:instance=B:first-differing-leaf=%s" % (pair, leaf),
+        # was the other instance's game (re)built between B's own last build and the differing operation?  (a process-wide
+        # setting written by every build reaches B only then; a setting B fails to write for itself reaches it always)
+        ka = kb = 0
+        b_built_at, a_built_after = -1, False
+        for i, w in enumerate(order):
+            if w == "A":
+                if pa[ka][0] in ("new", "reset") and b_built_at >= 0:
+                    a_built_after = True
+                ka += 1
+            else:
+                if kb > t:
+                    break
+                if pb[kb][0] in ("new", "reset"):
+                    b_built_at, a_built_after = i, False
+                if kb == t:
+                    break
+                kb += 1
+        viols.append(violation("instance_unaffected_by_other_instance",
+                               "pair=%s:instance=B:other-instance-built-in-between=%s:first-differing-leaf=%s" % (
+                                   pair, "yes" if a_built_after else "no", leaf),
                                "pair %s interleaving %s: B's operation %d (%s) differs from B run alone at %s (alone %r, interleaved %r)" % (
                                    pair, "".join(order), t, pb[t], d[0] if d else "?", d[1] if d else "?", d[2] if d else "?")))
     if [g[0] for g in got] != [x[0] for x in solo]:
